@@ -167,3 +167,61 @@ Section Proofs.
       cbn [eval] in Hev. cbn [wf_flags] in Hwf. exact (IHe _ _ _ _ _ Hwf Hev Hb).
   Qed.
 End Proofs.
+
+(* ---- equality tables ---------------------------------------------------------- *)
+Lemma lit_value_strip : forall e, lit_value (strip_enum e) = lit_value e.
+Proof. induction e; cbn [strip_enum lit_value]; auto. Qed.
+
+Lemma lit_is_primitive : forall e v, lit_value e = Some v -> is_primitive_literal (strip_enum e) = true.
+Proof.
+  induction e; intros v H; cbn [lit_value] in H; try discriminate; cbn [strip_enum is_primitive_literal]; eauto.
+Qed.
+
+Lemma num_eq_sym : forall a b, num_eq a b = num_eq b a.
+Proof.
+  intros [|s1|s1 m1 e1] [|s2|s2 m2 e2]; unfold num_eq; cbn [num_cmp]; try reflexivity.
+  - destruct s1, s2; reflexivity.
+  - destruct s1, s2; reflexivity.
+  - destruct s1, s2; reflexivity.
+  - unfold fin_cmp. rewrite (Z.min_comm e2 e1). rewrite (Z.compare_antisym (signed s1 _) (signed s2 _)).
+    destruct (Z.compare _ _); reflexivity.
+Qed.
+
+Lemma strip_not_enum : forall e v, strip_enum e <> EInlinedEnum v.
+Proof. induction e; cbn [strip_enum]; intros v0 H; try discriminate. eapply IHe; eauto. Qed.
+
+Definition both_bigint (l r : expr) : bool :=
+  match strip_enum l, strip_enum r with EBig _, EBig _ => true | _, _ => false end.
+
+(* CheckEqualityIfNoSideEffects on two literals answers what IsStrictlyEqual /
+   IsLooselyEqual compute on their values (pairs of two bigint literals are
+   compared textually by the code and are not covered here) *)
+Theorem check_equality_sound_all : forall l r strict eq x y,
+  lit_value l = Some x -> lit_value r = Some y -> both_bigint l r = false ->
+  check_equality l r strict = (eq, true) ->
+  (if strict then strict_eq x y else spec_loose_eq x y) = Some eq.
+Proof.
+  intros l r strict eq x y Hl Hr Hbb Hc.
+  unfold check_equality in Hc. unfold both_bigint in Hbb.
+  rewrite <- lit_value_strip in Hl. rewrite <- lit_value_strip in Hr.
+  pose proof (lit_is_primitive _ _ Hr) as Hpr. rewrite lit_value_strip in Hr. rewrite <- lit_value_strip in Hr.
+  assert (Hidem : strip_enum (strip_enum r) = strip_enum r).
+  { clear. induction r; cbn [strip_enum]; auto. }
+  rewrite Hidem in Hpr.
+  destruct (strip_enum l) as [] eqn:El; cbn [lit_value] in Hl; try discriminate;
+  try (exfalso; eapply strip_not_enum; eassumption);
+  destruct (strip_enum r) as [] eqn:Er; cbn [lit_value] in Hr; try discriminate;
+  try (exfalso; eapply strip_not_enum; eassumption);
+  try discriminate Hbb;
+  repeat match goal with
+         | H : match big_value ?s with _ => _ end = Some _ |- _ => destruct (big_value s) eqn:?; [|discriminate H]
+         end;
+  injection Hl as <-; injection Hr as <-;
+  cbn [check_equality_base is_primitive_literal] in Hc;
+  destruct strict; cbn [negb andb] in Hc;
+  repeat match goal with
+         | H : context [if ?b then _ else _] |- _ => is_var b; destruct b
+         end;
+  cbn in Hc; try discriminate Hc; injection Hc as <-; try reflexivity;
+  unfold spec_loose_eq, bool_to_number; f_equal; apply num_eq_sym.
+Qed.
